@@ -469,6 +469,7 @@ Spans of submodels differ:
         if _verif.ON:
             _verif.emit('l_before_done', self)
 
+        iteration = 0  # No iterations at all if `max_iter` is zero
         for iteration in range(1, max_iter + 1):
             previous_values = copy.deepcopy(current_values)
 
